@@ -253,6 +253,8 @@ pub fn err_code(e: &DbError) -> i64 {
             "RoomNode Authorisation mutation not authorised" => 52,
             "RoomNode new Authorisation mutation not authorised" => 53,
             "the room exists should have an existing old_room_node" => 60,
+            "RoomNode contains two nodes with the same id" => 70,
+            "RoomNode contains a node that is not referenced in its list" => 71,
             _ => 899,
         },
         _ => 99,
